@@ -171,6 +171,12 @@ impl State {
         } else {
             pos.unwrap_or(0)
         };
+        let mut data = data;
+        if data.len() > 1 && self.short_write_now(pid) {
+            data = &data[..(data.len() / 2).max(1)];
+            self.stats.short_writes += 1;
+            rec.injected = true;
+        }
         let r = self.fs(&h).write_at(ino, at, data, now);
         note(rec, &r);
         rec.bytes = data.len() as u64;
